@@ -248,7 +248,7 @@ func ruleF34(c *Ctx) *RuleResult {
 			switch {
 			case strings.Contains(top.Name(), "Playlist"):
 				kind = "playlist"
-			case top.Name() == "rotateSegments":
+			case top.Name() == "rotateSegments", strings.Contains(strings.ToLower(top.Name()), "segment") && !strings.Contains(strings.ToLower(top.Name()), "part"):
 				kind = "segment"
 			}
 			what := "the Content-Type fits the kind of object the handler serves (" + kind + ")"
@@ -264,8 +264,14 @@ func ruleF34(c *Ctx) *RuleResult {
 				alts = append(alts, alt{s: s})
 			} else if inner, ok := val.(*ssa.Call); ok {
 				// an immediately invoked closure returning one of two constants
+				var cf *ssa.Function
 				if mc, ok := inner.Call.Value.(*ssa.MakeClosure); ok {
-					cf := mc.Fn.(*ssa.Function)
+					cf = mc.Fn.(*ssa.Function)
+				} else if g := inner.Call.StaticCallee(); g != nil && InRootPkg(g) && g.Blocks != nil {
+					// a named function / method that picks the type
+					cf = g
+				}
+				if cf != nil {
 					for _, b := range cf.Blocks {
 						if ret, ok := b.Instrs[len(b.Instrs)-1].(*ssa.Return); ok && len(ret.Results) == 1 {
 							if s, ok := constString(ret.Results[0]); ok {
@@ -285,9 +291,88 @@ func ruleF34(c *Ctx) *RuleResult {
 					}
 				}
 			} else if phi, ok := val.(*ssa.Phi); ok {
-				for _, e := range phi.Edges {
+				for i, e := range phi.Edges {
 					if s, ok := constString(e); ok {
-						alts = append(alts, alt{s: s})
+						a := alt{s: s}
+						p := phi.Block().Preds[i]
+						if iff, ok := p.Instrs[len(p.Instrs)-1].(*ssa.If); ok {
+							a.cond = iff
+							if p.Succs[1] == phi.Block() {
+								a.edge = 1
+							}
+						} else if len(p.Preds) == 1 {
+							q := p.Preds[0]
+							if iff, ok := q.Instrs[len(q.Instrs)-1].(*ssa.If); ok {
+								a.cond = iff
+								if q.Succs[1] == p {
+									a.edge = 1
+								}
+							}
+						}
+						alts = append(alts, a)
+					}
+				}
+			} else if u, ok := val.(*ssa.UnOp); ok && u.Op == token.MUL {
+				// a variable of the enclosing function, computed before the handler is registered:
+				// a default constant, overwritten under a test
+				if fv, ok := u.X.(*ssa.FreeVar); ok && fn.Parent() != nil {
+					var cell ssa.Value
+					allInstrs(fn.Parent(), func(x ssa.Instruction) {
+						if mc, ok := x.(*ssa.MakeClosure); ok && mc.Fn == ssa.Value(fn) {
+							for i, b := range mc.Bindings {
+								if i < len(fn.FreeVars) && fn.FreeVars[i] == fv {
+									cell = b
+								}
+							}
+						}
+					})
+					if al, ok := cell.(*ssa.Alloc); ok {
+						var def *alt
+						var conds []alt
+						okForm := true
+						for _, ref := range *al.Referrers() {
+							st, ok := ref.(*ssa.Store)
+							if !ok || st.Addr != ssa.Value(al) {
+								continue
+							}
+							s, isS := constString(st.Val)
+							if !isS {
+								okForm = false
+								continue
+							}
+							var ctl []edge
+							for e := range controlEdges(fn.Parent(), st.Block()) {
+								iff := fn.Parent().Blocks[e.from].Instrs[len(fn.Parent().Blocks[e.from].Instrs)-1].(*ssa.If)
+								if bo, ok := iff.Cond.(*ssa.BinOp); ok {
+									if f, _ := loadedField(bo.X); f == variantF {
+										ctl = append(ctl, e)
+									}
+								}
+							}
+							switch len(ctl) {
+							case 0:
+								if def != nil {
+									okForm = false
+								}
+								def = &alt{s: s}
+							case 1:
+								blk := fn.Parent().Blocks[ctl[0].from]
+								a := alt{s: s, cond: blk.Instrs[len(blk.Instrs)-1].(*ssa.If)}
+								if blk.Succs[1].Index == ctl[0].to {
+									a.edge = 1
+								}
+								conds = append(conds, a)
+							default:
+								okForm = false
+							}
+						}
+						if okForm && def != nil && len(conds) == 1 {
+							def.cond = conds[0].cond
+							def.edge = 1 - conds[0].edge
+							alts = append(alts, *def, conds[0])
+						} else if okForm && def != nil && len(conds) == 0 {
+							alts = append(alts, *def)
+						}
 					}
 				}
 			}
@@ -311,17 +396,20 @@ func ruleF34(c *Ctx) *RuleResult {
 						bad = "a segment is served as " + a.s
 					}
 					if a.cond != nil && variantF != nil {
-						// the edge must be the MPEG-TS edge exactly for video/MP2T
-						if bo, ok := a.cond.Cond.(*ssa.BinOp); ok {
+						// video/MP2T exactly on the `variant == MPEG-TS` side of a test of the variant
+						if bo, ok := a.cond.Cond.(*ssa.BinOp); ok && (bo.Op == token.EQL || bo.Op == token.NEQ) {
 							if f, _ := loadedField(bo.X); f == variantF {
 								if k, ok := bo.Y.(*ssa.Const); ok && k.Value != nil {
-									isTS := strings.Contains(constName(c, bo.Y.Type(), k.Value), "MPEGTS")
+									cn := constName(c, bo.Y.Type(), k.Value)
+									isTS := strings.Contains(cn, "MPEGTS")
 									onEq := (bo.Op == token.EQL && a.edge == 0) || (bo.Op == token.NEQ && a.edge == 1)
-									tsEdge := (isTS && onEq) || (!isTS && !onEq && false)
-									if isTS {
-										if (a.s == "video/MP2T") != tsEdge {
-											bad = a.s + " is chosen on the wrong side of the variant test"
-										}
+									switch {
+									case isTS && (a.s == "video/MP2T") != onEq:
+										bad = a.s + " is chosen on the wrong side of the variant test"
+									case !isTS && onEq && a.s == "video/MP2T":
+										bad = "video/MP2T is chosen for " + cn
+									case !isTS && !onEq && a.s == "video/MP2T":
+										bad = "video/MP2T is chosen whenever the variant is not " + cn + ": the variant has three values, the other fMP4 variant is served as MPEG-TS"
 									}
 								}
 							}
@@ -683,68 +771,79 @@ func ruleL3f(c *Ctx) *RuleResult {
 		return r
 	}
 	n := 0
+	// push, or the helper of the queue that push runs under its lock
+	pushFns := []*ssa.Function{fn}
 	allInstrs(fn, func(in ssa.Instruction) {
-		call, ok := in.(*ssa.Call)
-		if !ok {
-			return
-		}
-		b, ok := call.Call.Value.(*ssa.Builtin)
-		if !ok || b.Name() != "close" {
-			return
-		}
-		if f, _ := loadedField(call.Call.Args[0]); f != pushF {
-			return
-		}
-		n++
-		key := fmt.Sprintf("push|wake-up#%d", n)
-		what := "the wake-up is skipped only when the queue was non-empty before the append"
-		// the append store
-		var app *ssa.Store
-		allInstrs(fn, func(x ssa.Instruction) {
-			if st, ok := x.(*ssa.Store); ok {
-				if f, _ := fieldOfAddr(st.Addr); f == qF {
-					app = st
-				}
+		if call, ok := in.(*ssa.Call); ok {
+			if g := call.Call.StaticCallee(); g != nil && g.Blocks != nil && g.Signature.Recv() != nil && types.Identical(g.Signature.Recv().Type(), fn.Signature.Recv().Type()) {
+				pushFns = appendUnique(pushFns, g)
 			}
-		})
-		bad := ""
-		for e := range controlEdges(fn, call.Block()) {
-			iff := fn.Blocks[e.from].Instrs[len(fn.Blocks[e.from].Instrs)-1].(*ssa.If)
-			// the condition: len(queue) == 0, possibly through a local bool
-			v := iff.Cond
-			okCond := false
-			var lenCall *ssa.Call
-			if bo, ok := v.(*ssa.BinOp); ok && bo.Op == token.EQL {
-				if k, isC := constInt(bo.Y); isC && k == 0 {
-					if lc, ok := bo.X.(*ssa.Call); ok {
-						if bi, ok := lc.Call.Value.(*ssa.Builtin); ok && bi.Name() == "len" {
-							if f, _ := loadedField(lc.Call.Args[0]); f == qF {
-								lenCall = lc
-								okCond = true
+		}
+	})
+	for _, fn := range pushFns {
+		allInstrs(fn, func(in ssa.Instruction) {
+			call, ok := in.(*ssa.Call)
+			if !ok {
+				return
+			}
+			b, ok := call.Call.Value.(*ssa.Builtin)
+			if !ok || b.Name() != "close" {
+				return
+			}
+			if f, _ := loadedField(call.Call.Args[0]); f != pushF {
+				return
+			}
+			n++
+			key := fmt.Sprintf("push|wake-up#%d", n)
+			what := "the wake-up is skipped only when the queue was non-empty before the append"
+			// the append store
+			var app *ssa.Store
+			allInstrs(fn, func(x ssa.Instruction) {
+				if st, ok := x.(*ssa.Store); ok {
+					if f, _ := fieldOfAddr(st.Addr); f == qF {
+						app = st
+					}
+				}
+			})
+			bad := ""
+			for e := range controlEdges(fn, call.Block()) {
+				iff := fn.Blocks[e.from].Instrs[len(fn.Blocks[e.from].Instrs)-1].(*ssa.If)
+				// the condition: len(queue) == 0, possibly through a local bool
+				v := iff.Cond
+				okCond := false
+				var lenCall *ssa.Call
+				if bo, ok := v.(*ssa.BinOp); ok && bo.Op == token.EQL {
+					if k, isC := constInt(bo.Y); isC && k == 0 {
+						if lc, ok := bo.X.(*ssa.Call); ok {
+							if bi, ok := lc.Call.Value.(*ssa.Builtin); ok && bi.Name() == "len" {
+								if f, _ := loadedField(lc.Call.Args[0]); f == qF {
+									lenCall = lc
+									okCond = true
+								}
 							}
 						}
 					}
 				}
+				if !okCond {
+					bad = "the wake-up also depends on `" + condText(c, iff) + "`"
+					continue
+				}
+				if app != nil && !instrDominates(lenCall, app) {
+					bad = "the length is read after the append (it is never 0 there)"
+				}
+				// the read happens under the lock
+				la := c.clientLockAnalysis()
+				if must, _, ok := la.heldAt(lenCall); ok && must == 0 {
+					bad = "the length is read before the mutex is taken (the consumer may pull the last segment in between and park: the push then signals nobody)"
+				}
 			}
-			if !okCond {
-				bad = "the wake-up also depends on `" + condText(c, iff) + "`"
-				continue
+			if bad == "" {
+				r.ok(key, c.Pos(call.Pos()), FuncName(fn), what, "depends on len(queue) == 0 read before the append, under the lock")
+			} else {
+				r.fail(key, c.Pos(call.Pos()), FuncName(fn), what, bad+": a processor parked on an empty queue is not woken and the stream stalls")
 			}
-			if app != nil && !instrDominates(lenCall, app) {
-				bad = "the length is read after the append (it is never 0 there)"
-			}
-			// the read happens under the lock
-			la := c.clientLockAnalysis()
-			if must, _, ok := la.heldAt(lenCall); ok && must == 0 {
-				bad = "the length is read before the mutex is taken (the consumer may pull the last segment in between and park: the push then signals nobody)"
-			}
-		}
-		if bad == "" {
-			r.ok(key, c.Pos(call.Pos()), FuncName(fn), what, "depends on len(queue) == 0 read before the append, under the lock")
-		} else {
-			r.fail(key, c.Pos(call.Pos()), FuncName(fn), what, bad+": a processor parked on an empty queue is not woken and the stream stalls")
-		}
-	})
+		})
+	}
 	r.Instances = n
 	return r
 }
@@ -1126,7 +1225,7 @@ func ruleK10(c *Ctx) *RuleResult {
 				continue
 			}
 			if k, isC := constInt(bo.Y); isC && k == maxK && bo.X == d {
-				conds = append(conds, condIf{iff, true})
+				conds = append(conds, condIf{If: iff, Pol: true})
 			}
 		}
 		if len(conds) > 0 && onlyIf(fn, call, conds, false) {
